@@ -8,7 +8,7 @@ Fixpoint mem_stack (s : stack) : bool :=
   match s with
   | SMem => true
   | SCached s' | SBatched _ s' => mem_stack s'
-  | SLevel | SFmt _ _ | SFmtR _ _ => false
+  | SLevel | SFmt _ _ | SFmtR _ _ | SFmtE _ => false
   end.
 
 Lemma wf_op_batch q : forallb wf_bop q = true -> wf_op (Batch q) = true.
@@ -25,11 +25,12 @@ Fixpoint stack_rel (s : stack) : St (prov_of s) -> store -> Prop :=
   | SBatched l s' => batched_rel wf_bop l (stack_rel s')
   | SFmt f s' => fmt_rel (fmt_of f) (prov_of s') (stack_rel s')
   | SFmtR _ s' => fun _ _ => False
+  | SFmtE s' => fun _ _ => False
   end.
 
 Lemma stack_sim s : mem_stack s = true -> sim wf_op false (prov_of s) (stack_rel s).
 Proof.
-  induction s as [| |s' IH|l s' IH|f s' IH|f s' IH]; intros H; cbn in H; try discriminate.
+  induction s as [| |s' IH|l s' IH|f s' IH|f s' IH|s' IH]; intros H; cbn in H; try discriminate.
   - apply mem_sim.
   - cbn [prov_of stack_rel]. apply cached_sim; [auto|reflexivity|apply IH; assumption].
   - cbn [prov_of stack_rel]. apply batched_sim; [exact wf_op_batch|apply IH; assumption|exact put_wf_bop|reflexivity|auto|reflexivity|reflexivity].
@@ -37,7 +38,7 @@ Qed.
 
 Lemma stack_rel_init s : mem_stack s = true -> stack_rel s (init (prov_of s)) [].
 Proof.
-  induction s as [| |s' IH|l s' IH|f s' IH|f s' IH]; intros H; cbn in H; try discriminate.
+  induction s as [| |s' IH|l s' IH|f s' IH|f s' IH|s' IH]; intros H; cbn in H; try discriminate.
   - reflexivity.
   - cbn. split; [apply IH; assumption|]. split; [apply cache_ok_nil|apply wf_store_nil].
   - cbn. apply batched_rel_fresh. apply IH; assumption.
@@ -47,7 +48,7 @@ Qed.
    wrappers are transparent also over a provider that already holds data *)
 Lemma stack_rel_rewrap s : mem_stack s = true -> forall x a, stack_rel s x a -> stack_rel s (rewrap s x) a.
 Proof.
-  induction s as [| |s' IH|l s' IH|f s' IH|f s' IH]; intros H x a Hr; cbn in H; try discriminate.
+  induction s as [| |s' IH|l s' IH|f s' IH|f s' IH|s' IH]; intros H x a Hr; cbn in H; try discriminate.
   - exact Hr.
   - destruct x as [m c]. destruct Hr as [H1 [H2 H3]]. cbn [rewrap fst snd] in *.
     split; [apply IH; assumption|]. split; [apply cache_ok_nil|assumption].
@@ -60,7 +61,7 @@ Qed.
 Fixpoint plain_stack (s : stack) : bool :=
   match s with
   | SMem => true
-  | SLevel | SFmtR _ _ => false
+  | SLevel | SFmtR _ _ | SFmtE _ => false
   | SCached s' | SBatched _ s' | SFmt _ s' => plain_stack s'
   end.
 
@@ -78,7 +79,7 @@ Proof. intros H. apply wf1_wf in H. exact H. Qed.
 
 Lemma plain_stack_sim s : plain_stack s = true -> sim wf1_op false (prov_of s) (stack_rel s).
 Proof.
-  induction s as [| |s' IH|l s' IH|f s' IH|f s' IH]; intros H; cbn in H; try discriminate.
+  induction s as [| |s' IH|l s' IH|f s' IH|f s' IH|s' IH]; intros H; cbn in H; try discriminate.
   - apply mem_sim.
   - cbn [prov_of stack_rel]. apply cached_sim; [exact wf1_wf|reflexivity|apply IH; assumption].
   - cbn [prov_of stack_rel]. apply batched_sim; [exact wf1_op_batch|apply IH; assumption|exact put_wf_bop1|reflexivity|exact wf1_batch_inv|reflexivity|reflexivity].
@@ -87,7 +88,7 @@ Qed.
 
 Lemma plain_stack_rel_init s : plain_stack s = true -> stack_rel s (init (prov_of s)) [].
 Proof.
-  induction s as [| |s' IH|l s' IH|f s' IH|f s' IH]; intros H; cbn in H; try discriminate.
+  induction s as [| |s' IH|l s' IH|f s' IH|f s' IH|s' IH]; intros H; cbn in H; try discriminate.
   - reflexivity.
   - cbn. split; [apply IH; assumption|]. split; [apply cache_ok_nil|apply wf_store_nil].
   - cbn. apply batched_rel_fresh. apply IH; assumption.
@@ -96,7 +97,7 @@ Qed.
 
 Lemma plain_stack_rel_rewrap s : plain_stack s = true -> forall x a, stack_rel s x a -> stack_rel s (rewrap s x) a.
 Proof.
-  induction s as [| |s' IH|l s' IH|f s' IH|f s' IH]; intros H x a Hr; cbn in H; try discriminate.
+  induction s as [| |s' IH|l s' IH|f s' IH|f s' IH|s' IH]; intros H x a Hr; cbn in H; try discriminate.
   - exact Hr.
   - destruct x as [m c]. destruct Hr as [H1 [H2 H3]]. cbn [rewrap fst snd] in *.
     split; [apply IH; assumption|]. split; [apply cache_ok_nil|assumption].
@@ -137,7 +138,7 @@ Proof. intros H Ev. unfold gbk. rewrite (put_wf_bop k v t eq_refl Ev). unfold wf
 
 Lemma rand_stack_sim s : rand_stack s = true -> sim wfk_op false (prov_of s) (rstack_rel s).
 Proof.
-  induction s as [| |s' IH|l s' IH|f s' IH|f s' IH]; intros H; cbn in H; try discriminate.
+  induction s as [| |s' IH|l s' IH|f s' IH|f s' IH|s' IH]; intros H; cbn in H; try discriminate.
   - cbn [prov_of rstack_rel]. apply cached_sim; [exact wfk_wf|reflexivity|apply IH; assumption].
   - cbn [prov_of rstack_rel]. apply batched_sim; [exact wfk_op_batch|apply IH; assumption|exact put_gbk|reflexivity|exact wfk_batch_inv|reflexivity|reflexivity].
   - cbn [prov_of rstack_rel]. apply formatted_rand_sim; [apply fmt_of_ok|apply plain_stack_sim; assumption].
@@ -145,7 +146,7 @@ Qed.
 
 Lemma rand_stack_rel_init s : rand_stack s = true -> rstack_rel s (init (prov_of s)) [].
 Proof.
-  induction s as [| |s' IH|l s' IH|f s' IH|f s' IH]; intros H; cbn in H; try discriminate.
+  induction s as [| |s' IH|l s' IH|f s' IH|f s' IH|s' IH]; intros H; cbn in H; try discriminate.
   - cbn. split; [apply IH; assumption|]. split; [apply cache_ok_nil|apply wf_store_nil].
   - cbn. apply batched_rel_fresh. apply IH; assumption.
   - cbn [prov_of rstack_rel]. apply rand_rel_init. apply plain_stack_rel_init; assumption.
@@ -153,7 +154,7 @@ Qed.
 
 Lemma rand_stack_rel_rewrap s : rand_stack s = true -> forall x a, rstack_rel s x a -> rstack_rel s (rewrap s x) a.
 Proof.
-  induction s as [| |s' IH|l s' IH|f s' IH|f s' IH]; intros H x a Hr; cbn in H; try discriminate.
+  induction s as [| |s' IH|l s' IH|f s' IH|f s' IH|s' IH]; intros H x a Hr; cbn in H; try discriminate.
   - destruct x as [m c]. destruct Hr as [H1 [H2 H3]]. cbn [rewrap fst snd] in *.
     split; [apply IH; assumption|]. split; [apply cache_ok_nil|assumption].
   - cbn [rewrap]. pose proof (rand_stack_sim s' H) as HS.
